@@ -57,6 +57,7 @@ type Exec struct {
 	bounded    int // >0: unroll loops without invariants this many times
 	funcsSeen  map[string]bool
 	lemmaErrors []string
+	pure        int
 }
 
 func newExec(prog *ssa.Program, fset *token.FileSet) *Exec {
@@ -86,7 +87,7 @@ func (x *Exec) declare(st *State, prefix string, sortS string) string {
 }
 
 func (x *Exec) define(st *State, prefix, sortS, term string) string {
-	if len(term) < 24 && !strings.Contains(term, "(") {
+	if x.pure > 0 || (len(term) < 24 && !strings.Contains(term, "(")) {
 		return term
 	}
 	n := x.fresh(prefix)
@@ -95,7 +96,7 @@ func (x *Exec) define(st *State, prefix, sortS, term string) string {
 }
 
 func (x *Exec) assume(st *State, cond string) {
-	if cond == "true" || cond == "" {
+	if cond == "true" || cond == "" || x.pure > 0 {
 		return
 	}
 	if cond == "false" {
@@ -271,9 +272,19 @@ func (x *Exec) assumeTypeInv(st *State, s string, T types.Type) {
 	case *types.Slice:
 		x.assume(st, and(app("<=", "0", app("s_off", s)), app("<=", "0", app("s_len", s)), app("<=", app("s_len", s), app("s_cap", s)),
 			app("<=", "0", app("s_arr", s)), app("<", app("s_arr", s), st.allocCtr),
+			app("<=", app("+", app("s_off", s), app("s_cap", s)), "9223372036854775807"),
 			implies(eq(app("s_arr", s), "0"), eq(app("s_cap", s), "0"))))
 	case *types.Pointer, *types.Map:
 		x.assume(st, and(app("<=", "0", s), app("<", s, st.allocCtr)))
+	case *types.Struct:
+		// value structs: invariants of the fields (one level of nesting is enough for the code base)
+		si := x.structInfo(T)
+		for i, f := range si.fields {
+			switch si.ftypes[i].Underlying().(type) {
+			case *types.Basic, *types.Slice, *types.Pointer, *types.Map:
+				x.assumeTypeInv(st, app(f, s), si.ftypes[i])
+			}
+		}
 	}
 }
 
